@@ -249,8 +249,26 @@ func globalObs() []*Op {
 	return l
 }
 
+// hotAddr >= 0: the program keeps coming back to one address with self-destructs and re-credits, so that
+// repeated Suicide of the same account with funds arriving in between happens inside and outside brackets
+var hotAddr = -1
+
 func genMut(r *hx.Rng, exotic bool) *Op {
 	a := pickAddr(r)
+	if hotAddr >= 0 && r.Intn(3) == 0 {
+		switch r.Intn(8) {
+		case 0, 1, 2:
+			return &Op{K: "Suicide", A: hotAddr}
+		case 3, 4:
+			return &Op{K: "AddBalance", A: hotAddr, N: uint64(1 + r.Intn(20))}
+		case 5:
+			return &Op{K: "Transfer", A: a, B: hotAddr, N: uint64(1 + r.Intn(9))}
+		case 6:
+			return &Op{K: "SetBalance", A: hotAddr, N: uint64(1 + r.Intn(3)*100)}
+		default:
+			return &Op{K: "CreateAccount", A: hotAddr}
+		}
+	}
 	for {
 		switch r.Intn(26) {
 		case 0, 1:
@@ -695,7 +713,7 @@ func main() {
 		// on a modified slot); the random program is built around them
 		var inject []*Item
 		delCommit := r.Intn(3) == 0
-		switch r.Intn(16) {
+		switch r.Intn(20) {
 		case 0:
 			x := r.Intn(6)
 			pre = []*Item{{Op: &Op{K: "CreateAccount", A: x}}, {Op: &Op{K: "SetData", A: (x + 1) % 6, Key: 1, V: []byte{3}}}}
@@ -716,6 +734,33 @@ func main() {
 			x := r.Intn(6)
 			pre = []*Item{{Op: &Op{K: "SetData", A: x, Key: r.Intn(4), V: []byte{5}}}, {Op: &Op{K: "SetNonce", A: (x + 1) % 6, N: 2}}}
 			inject = []*Item{{Body: []*Item{{Op: &Op{K: "SetNonce", A: x, N: 7}}}, Rv: true, Obs: []*Op{{K: "GetNonce", A: x}}}}
+		case 5, 6, 7:
+			// repeated self-destruct of one account with funds arriving in between; the second (third) one is reverted,
+			// at top level, inside a kept bracket, or inside a bracket that is itself reverted afterwards
+			x, y := r.Intn(6), 0
+			y = (x + 1 + r.Intn(5)) % 6
+			pre = append(pre, &Item{Op: &Op{K: "SetNonce", A: x, N: 1}}, &Item{Op: &Op{K: "AddBalance", A: x, N: uint64(10 + r.Intn(30))}},
+				&Item{Op: &Op{K: "AddBalance", A: y, N: 50}})
+			credit := func() *Item {
+				if r.Intn(2) == 0 {
+					return &Item{Op: &Op{K: "AddBalance", A: x, N: uint64(1 + r.Intn(20))}}
+				}
+				return &Item{Op: &Op{K: "Transfer", A: y, B: x, N: uint64(1 + r.Intn(9))}}
+			}
+			obs := []*Op{{K: "GetBalance", A: x}, {K: "Suicided", A: x}, {K: "GetData", A: tokenID, Key: 1000 + x}}
+			inner := &Item{Body: []*Item{{Op: &Op{K: "Suicide", A: x}}}, Rv: true, Obs: obs}
+			if r.Intn(2) == 0 {
+				inner.Body = append(inner.Body, credit(), &Item{Op: &Op{K: "Suicide", A: x}})
+			}
+			seq := []*Item{{Op: &Op{K: "Suicide", A: x}}, credit(), inner}
+			switch r.Intn(3) {
+			case 0:
+				inject = seq
+			case 1:
+				inject = []*Item{{Body: seq, Rv: false, Obs: obs}}
+			default:
+				inject = []*Item{{Op: &Op{K: "Suicide", A: x}}, credit(), {Body: []*Item{credit(), inner, credit()}, Rv: r.Intn(2) == 0, Obs: obs}}
+			}
 		case 4:
 			// a committed empty account written inside a reverted bracket
 			x := r.Intn(6)
@@ -743,7 +788,12 @@ func main() {
 		start := dump(root0, adb)
 
 		exoticQueries = exotic
+		hotAddr = -1
+		if r.Intn(3) == 0 {
+			hotAddr = r.Intn(6)
+		}
 		prog := genItems(r, 3, 2+r.Intn(10), exotic)
+		hotAddr = -1
 		if inject != nil {
 			at := r.Intn(len(prog) + 1)
 			prog = append(append(append([]*Item{}, prog[:at]...), inject...), prog[at:]...)
